@@ -64,7 +64,7 @@ def replay_of(r, msg=None):
 
 
 def mon_key(m):
-    for pat, k in (("did not reopen", "reopen"), ("is missing after the reopen", "acked-lost"), ("not any VAA stored", "foreign-bytes"),
+    for pat, k in (("what a kill inside memtable file creation leaves", "reopen-empty-memtable-file"), ("did not reopen", "reopen"), ("is missing after the reopen", "acked-lost"), ("not any VAA stored", "foreign-bytes"),
                    ("although the store of version", "acked-overwrite-lost"), ("present after an earlier reopen", "later-lookup"),
                    ("never written", "foreign-key"), ("cannot have attempted", "foreign-key"), ("closed store", "error-dropped"), ("harness:", "harness")):
         if pat in m:
@@ -108,6 +108,7 @@ def run(ctx):
     ctx.cov["unacknowledged_stores_found_after_kill"] = inflight_found
     ctx.cov["unacknowledged_stores_lost_by_kill"] = sum(1 for r in cyc for w in (r.get("window") or []) if not w["acked"][-1] and (not w["found"] or w["gotver"] != w["vers"][-1]))
     ctx.cov["extracted"] = (st.get("db_store") or {}).get("info")
+    ctx.cov["directed"] = [{k: v for k, v in r.items() if k not in ("mon", "vaa")} for r in rows if r.get("k") in ("leftover", "closed")]
     ctx.samples = [replay_of(r) for r in cyc if sum(r["acks"]) > 0][:2]
     for s in ctx.samples:
         s["last_steps_before_kill"] = s.get("last_steps_before_kill", [])[:3]
@@ -141,7 +142,7 @@ def run(ctx):
     ctx.cov["cycles_validated_against_model"] = len(cases)
     ctx.cov["events_validated_against_model"] = sum(len(events(r)[0]) for r in cases)
     ctx.cov["mismatches"] = len(bad)
-    ctx.assumptions = ["ENGINE CONTRACT (trusted, hypothesis `engine_contract`): badger returns nil from Update only after the write is in a form that survives SIGKILL (value log / WAL written to the page cache), a kill loses only un-returned transactions and each of them entirely, and Open succeeds on whatever a kill leaves — exercised by the kill cycles, not proved",
+    ctx.assumptions = ["ENGINE CONTRACT (trusted, hypothesis `engine_contract`): badger returns nil from Update only after the write is in a form that survives SIGKILL (value log / WAL written to the page cache), a kill loses only un-returned transactions and each of them entirely, and db.Open (badger.Open, tried once more on failure since fix 2c8f6b8) succeeds on whatever a kill leaves — exercised by the kill cycles and by the zero-length memtable file witness, not proved",
                        "process kill, not power loss: badger.DefaultOptions has SyncWrites=false, so an acknowledged write sits in the OS page cache; the property asks for process kills only",
                        "the acknowledgement is observed on a pipe written after StoreSignedVAA returned: a store whose line was not written yet counts as un-acknowledged (may or may not be found)",
                        "identifiers are the Go types' ranges (theorem hypothesis `wf`)"]
